@@ -28,6 +28,8 @@ def run(ctx):
     ctx.guard(order, ctx)
     ctx.guard(types, ctx)
     ctx.guard(forward, ctx)
+    from . import scope
+    ctx.guard(scope.containment, ctx, 'C14-SCOPE')
     ctx.assume('the effect of edit scripts on concrete BridgePoint models is not decided')
     ctx.assume('writing the schema and loading it back is decided by the C01 rules')
     return ('Schema type-check of the ooaofooa navigations; provenance (after substituting local definitions) of each keyword '
